@@ -81,11 +81,9 @@ template <class Ten, class T, class S> struct IL { enum { available = 0 }; stati
 template <class Ten, class T, size_t N> struct IL<Ten, T, shape_<N>> { enum { available = 1 };
     template <size_t... I> static Ten mk(const T *v, std_ext::index_sequence<I...>) { return Ten{v[I]...}; }
     static Ten make(const T *v) { return mk(v, std_ext::make_index_sequence<N>{}); } };
-template <class Ten, class T> struct IL<Ten, T, shape_<2, 3>> { enum { available = 1 }; static Ten make(const T *v) { return Ten{{v[0], v[1], v[2]}, {v[3], v[4], v[5]}}; } };
-template <class Ten, class T> struct IL<Ten, T, shape_<3, 2>> { enum { available = 1 }; static Ten make(const T *v) { return Ten{{v[0], v[1]}, {v[2], v[3]}, {v[4], v[5]}}; } };
-template <class Ten, class T> struct IL<Ten, T, shape_<3, 4>> { enum { available = 1 }; static Ten make(const T *v) { return Ten{{v[0], v[1], v[2], v[3]}, {v[4], v[5], v[6], v[7]}, {v[8], v[9], v[10], v[11]}}; } };
-template <class Ten, class T> struct IL<Ten, T, shape_<3, 3>> { enum { available = 1 }; static Ten make(const T *v) { return Ten{{v[0], v[1], v[2]}, {v[3], v[4], v[5]}, {v[6], v[7], v[8]}}; } };
-template <class Ten, class T> struct IL<Ten, T, shape_<2, 2, 3>> { enum { available = 1 }; static Ten make(const T *v) { return Ten{{{v[0], v[1], v[2]}, {v[3], v[4], v[5]}}, {{v[6], v[7], v[8]}, {v[9], v[10], v[11]}}}; } };
+} // namespace mapsim
+#include "il_gen.h"      // generated: nested literal lists for every rank-2 / rank-3 catalogue shape
+namespace mapsim {
 
 // squeeze(): available as the rank-1 handle when the owning source has exactly one non-unit extent
 template <class T, class S1, class Map0> struct Squeeze { enum { available = 0 }; template <class Src> static Map0 make(Src &s) { return Map0(flatten(s)); } template <class Src> static Map0 make_from_map(Src &s) { return Map0(s.data()); } };
@@ -163,14 +161,15 @@ template <class T, class S0, class S1, class S2> struct MU : UniverseBase {
             case K_ELEM: { auto &e = elem_at(d, ix, rank_t<R>{}); switch (op) { case 0: e = c; break; case 1: e += c; break; case 2: e -= c; break; case 3: e *= c; break; default: e /= c; } } break;
             case K_FIXVIEW: fixview_op(op, (int)(rk % 12), d, X, sh); break;
             case K_DYNVIEW: dynview_op(op, rg, c, d, X, sh); break;
-            case K_REDUCE: rd[0] = d.sum(); rd[1] = sum(d + X); rd[2] = (T)(all_of(d == d) ? 1 : 0); rd[3] = inner(d, X); rd[4] = min(d); rd[5] = max(d);
-                           rd[6] = std::is_floating_point<T>::value ? d.product() : (T)0; { auto cz = d.template cast<double>(); rd[7] = (T)cz.data()[(size_t)(st.a[A_VAL] % (uint32_t)SZ)]; } break;
+            case K_REDUCE: rd[0] = d.sum(); rd[1] = sum(d + X); rd[2] = (T)(all_of(d == d) ? 1 : 0); rd[3] = inner(d, X);
+                           // (min()/max() do not compile under AVX-512, product() not for int under AVX: API gaps, left out)
+                           { auto cz = d.template cast<double>(); rd[4] = (T)cz.data()[(size_t)(st.a[A_VAL] % (uint32_t)SZ)]; rd[5] = (T)cz.data()[0]; } break;
             case K_READ_EXPR: { Ten r = d * (T)2 + X; memcpy(rd, r.data(), sizeof(T) * SZ); } break;
             case K_MATMUL: matmul_read(d, rd, st.a[A_VAL], sh); break;
             default: break;
             }
         };
-        if (kind == K_REDUCE) { nrd = 8; writes = false; } else if (kind == K_READ_EXPR) { nrd = (size_t)SZ; writes = false; } else if (kind == K_MATMUL) { nrd = mm_len<Sh>::value; writes = false; }
+        if (kind == K_REDUCE) { nrd = 6; writes = false; } else if (kind == K_READ_EXPR) { nrd = (size_t)SZ; writes = false; } else if (kind == K_MATMUL) { nrd = mm_len<Sh>::value; writes = false; }
         for (size_t i = 0; i < nrd; ++i) { rd_h[i] = 0; rd_t[i] = 0; }
         if (kind == K_MAP_COPY) {
             // h = other map of the SAME type over another buffer: on owning tensors `a = b` copies the values
